@@ -90,6 +90,31 @@ Proof.
 Qed.
 Print Assumptions tie_arr_init.
 
+(* new_map_of / new_arr_of are the ONLY pair of functions satisfying the two generated constructor equations *)
+Theorem construct_unique : forall NM NA,
+  (forall v, NM v = gen_map_init NM NA v) ->
+  (forall v, NA v = gen_arr_init NM NA v) ->
+  forall t, wf t -> NM (desc_of t) = new_map_of (desc_of t) /\ NA (desc_of t) = new_arr_of (desc_of t).
+Proof.
+  intros NM NA HM HA t. induction t as [w a| |l IH|l IH] using ftree_ind2; intros Hwf;
+    (split; [rewrite HM|rewrite HA]); try reflexivity.
+  - rewrite <- (tie_map_init _ Hwf). apply wf_Map_inv in Hwf. destruct Hwf as [_ Hwfl].
+    unfold gen_map_init. cbn [desc_of is_dict negb orb py_len py_items]. cbv zeta.
+    destruct (zlen _ =? 0); [reflexivity|].
+    erewrite for_res_ext_in; [reflexivity|].
+    intros [k v] Hin d. apply in_map_iff in Hin. destruct Hin as ([k0 x] & Heq & Hin). inversion Heq; subst k v.
+    rewrite Forall_forall in IH, Hwfl. destruct (IH _ Hin (Hwfl _ Hin)) as [E1 E2]. cbn [snd] in E1, E2.
+    rewrite ?E1, ?E2. reflexivity.
+  - rewrite <- (tie_arr_init _ Hwf). apply wf_Arr_inv in Hwf.
+    unfold gen_arr_init. cbn [desc_of is_list negb orb py_len py_elems]. cbv zeta.
+    destruct (zlen _ =? 0); [reflexivity|].
+    erewrite for_res_ext_in; [reflexivity|].
+    intros v Hin d. apply in_map_iff in Hin. destruct Hin as (x & <- & Hin).
+    rewrite Forall_forall in IH, Hwf. destruct (IH _ Hin (Hwf _ Hin)) as [E1 E2].
+    rewrite ?E1, ?E2. reflexivity.
+Qed.
+Print Assumptions construct_unique.
+
 (* the constructors in model terms: a dict / list is accepted iff build_ok, and becomes inst_of *)
 Theorem tie_construct_model : forall t, wf t ->
   gen_map_init new_map_of new_arr_of (desc_of t)
@@ -150,6 +175,33 @@ Proof.
 Qed.
 Print Assumptions tie_flatten_model.
 
+(* flat_of is the ONLY function satisfying both generated flatten equations (on distinct-key collections) *)
+Theorem flatten_unique : forall F,
+  (forall v, is_amap v = true -> F v = gen_map_flatten F v) ->
+  (forall v, is_aarr v = true -> F v = gen_arr_flatten F v) ->
+  forall t, wf t -> is_amap (inst_of t) || is_aarr (inst_of t) = true -> F (inst_of t) = flat_of (inst_of t).
+Proof.
+  intros F HM HA t. induction t as [w a| |l IH|l IH] using ftree_ind2; intros Hwf Hc; try discriminate.
+  - rewrite (HM (inst_of (Map l)) eq_refl), <- (tie_map_flatten l Hwf).
+    apply wf_Map_inv in Hwf. destruct Hwf as [Hnd Hwfl].
+    unfold gen_map_flatten. cbn [inst_of]. fold (i_items l).
+    rewrite !(mapping_items_dict (i_items l)); try (rewrite i_items_keys; apply nodup_kstr; exact Hnd);
+      try (rewrite tie_map_iter; reflexivity); try (intros k; rewrite tie_map_getitem; reflexivity).
+    cbn [bind]. erewrite for_res_ext_in; [reflexivity|].
+    intros [k f] Hin s. apply in_map_iff in Hin. destruct Hin as ([k0 x] & Heq & Hin). inversion Heq; subst k f.
+    rewrite Forall_forall in IH, Hwfl. specialize (IH _ Hin (Hwfl _ Hin)). cbn [snd] in IH |- *.
+    destruct x; cbn [inst_of is_amap is_aarr orb] in IH |- *; try reflexivity; rewrite (IH eq_refl); reflexivity.
+  - rewrite (HA (inst_of (Arr l)) eq_refl), <- (tie_arr_flatten l Hwf).
+    apply wf_Arr_inv in Hwf.
+    unfold gen_arr_flatten. cbn [inst_of aarr_fields].
+    erewrite for_res_ext_in; [reflexivity|].
+    intros [k f] Hin s. apply (in_map snd) in Hin. rewrite enum_from_snd in Hin. cbn [snd] in Hin.
+    apply in_map_iff in Hin. destruct Hin as (x & <- & Hin).
+    rewrite Forall_forall in IH, Hwf. specialize (IH _ Hin (Hwf _ Hin)).
+    destruct x; cbn [inst_of is_amap is_aarr orb] in IH |- *; try reflexivity; rewrite (IH eq_refl); reflexivity.
+Qed.
+Print Assumptions flatten_unique.
+
 (* Register.__iter__ *)
 Theorem tie_reg_iter : forall F sf,
   gen_reg_iter F sf = if is_action sf then Ok [([], sf)] else F sf.
@@ -178,6 +230,28 @@ Proof.
     rewrite Hr. binds. rewrite Hs. reflexivity.
 Qed.
 Print Assumptions tie_filter_fields.
+
+(* ff_of is the ONLY function satisfying the generated filter_fields equation *)
+Theorem filter_fields_unique : forall G,
+  (forall v, G v = gen_filter_fields G v) ->
+  forall t, wf t -> G (desc_of t) = ff_of (desc_of t).
+Proof.
+  intros G HG t. induction t as [w a| |l IH|l IH] using ftree_ind2; intros Hwf; rewrite HG; try reflexivity.
+  - rewrite <- (tie_filter_fields _ Hwf). apply wf_Map_inv in Hwf. destruct Hwf as [_ Hwfl].
+    unfold gen_filter_fields. cbn [desc_of is_field is_dict is_list orb py_items py_enumerate]. cbv zeta.
+    erewrite for_res_ext_in; [reflexivity|].
+    intros [k v] Hin d. apply in_map_iff in Hin. destruct Hin as ([k0 x] & Heq & Hin). inversion Heq; subst k v.
+    rewrite Forall_forall in IH, Hwfl. pose proof (IH _ Hin (Hwfl _ Hin)) as E. cbn [snd] in E.
+    cbn [fst snd]. rewrite E. reflexivity.
+  - rewrite <- (tie_filter_fields _ Hwf). apply wf_Arr_inv in Hwf.
+    unfold gen_filter_fields. cbn [desc_of is_field is_dict is_list orb py_items py_enumerate]. cbv zeta.
+    erewrite for_res_ext_in; [reflexivity|].
+    intros [k v] Hin d. apply (in_map snd) in Hin. rewrite enum_from_snd in Hin. cbn [snd] in Hin.
+    apply in_map_iff in Hin. destruct Hin as (x & <- & Hin).
+    rewrite Forall_forall in IH, Hwf. pose proof (IH _ Hin (Hwf _ Hin)) as E.
+    cbn [fst snd]. rewrite E. reflexivity.
+Qed.
+Print Assumptions filter_fields_unique.
 
 (* in model terms *)
 Theorem tie_filter_fields_model : forall t, wf t ->
